@@ -411,97 +411,144 @@ func runPercentage(c *harness.Ctx) harness.Result {
 // ScaleProfiles preserves each profile's physical totals within n/2 and never drops samples.
 func runScaleProfiles(c *harness.Ctx) harness.Result {
 	r := c.Rng
-	fi := r.Intn(2)
-	fam := families[fi]
+	// two measured columns "t" and "w" (half of the time of the same family, so that one unit
+	// string can occur in both columns and need different conversions) next to a column whose unit
+	// is not convertible
+	fa := r.Intn(3)
+	fb := fa
+	if r.Intn(2) == 0 {
+		fb = r.Intn(3)
+	}
+	fams := []family{families[fa], families[fb]}
+	// bounded span so that converted values stay inside int64
+	win := func(f family) []unit {
+		us := f.units[:len(f.units)-1]
+		if len(us) > 6 {
+			o := r.Intn(len(us) - 5)
+			us = us[o : o+6]
+		}
+		return us
+	}
+	wins := [][]unit{win(fams[0]), win(fams[1])}
 	n := 2 + r.Intn(3)
 	var ps []*profile.Profile
-	var before [][]*big.Rat
-	var inputFactors []*big.Rat
+	var before [][]*big.Rat // per profile: totals of the three columns in base units
+	var mass [][]*big.Rat   // per profile: sum of |value| in base units (columns 1, 2)
+	inputFactors := [][]*big.Rat{nil, nil}
 	var counts []int
 	desc := []string{}
 	otherUnit := []string{"count", "frobs", ""}[r.Intn(3)]
 	for i := 0; i < n; i++ {
-		u := fam.units[r.Intn(len(fam.units)-1)] // avoid PB/hrs overflow focus; still large factors
-		alias := u.aliases[r.Intn(len(u.aliases))]
-		p := &profile.Profile{
-			SampleType: []*profile.ValueType{{Type: "n", Unit: otherUnit}, {Type: "t", Unit: alias}},
-			PeriodType: &profile.ValueType{Type: "t", Unit: alias}, Period: int64(1 + r.Intn(5)),
+		var us [2]unit
+		var alias [2]string
+		for k := 0; k < 2; k++ {
+			us[k] = wins[k][r.Intn(len(wins[k]))]
+			alias[k] = us[k].aliases[r.Intn(len(us[k].aliases))]
+			inputFactors[k] = append(inputFactors[k], us[k].factor)
 		}
-		tot := []*big.Rat{new(big.Rat), new(big.Rat)}
+		p := &profile.Profile{
+			SampleType: []*profile.ValueType{{Type: "n", Unit: otherUnit}, {Type: "t", Unit: alias[0]}, {Type: "w", Unit: alias[1]}},
+			PeriodType: &profile.ValueType{Type: "t", Unit: alias[0]}, Period: int64(1 + r.Intn(5)),
+		}
+		tot := []*big.Rat{new(big.Rat), new(big.Rat), new(big.Rat)}
+		ms := []*big.Rat{new(big.Rat), new(big.Rat), new(big.Rat)}
 		ns := 1 + r.Intn(5)
 		for j := 0; j < ns; j++ {
-			v0, v1 := int64(r.Intn(5)), int64(r.Intn(2000))
-			if r.Intn(3) == 0 {
-				v1 = 0
-			}
-			if r.Intn(4) == 0 {
-				v1 = -v1
+			vs := []int64{int64(r.Intn(5)), int64(r.Intn(2000)), int64(r.Intn(2000))}
+			for k := 1; k < 3; k++ {
+				if r.Intn(3) == 0 {
+					vs[k] = 0
+				}
+				if r.Intn(4) == 0 {
+					vs[k] = -vs[k]
+				}
 			}
 			loc := &profile.Location{ID: uint64(j + 1), Address: uint64(0x1000 + j)}
 			p.Location = append(p.Location, loc)
-			p.Sample = append(p.Sample, &profile.Sample{Value: []int64{v0, v1}, Location: []*profile.Location{loc}})
-			tot[0].Add(tot[0], new(big.Rat).SetInt64(v0))
-			tot[1].Add(tot[1], mul(v1, u.factor))
+			p.Sample = append(p.Sample, &profile.Sample{Value: vs, Location: []*profile.Location{loc}})
+			tot[0].Add(tot[0], new(big.Rat).SetInt64(vs[0]))
+			for k := 1; k < 3; k++ {
+				x := mul(vs[k], us[k-1].factor)
+				tot[k].Add(tot[k], x)
+				ms[k].Add(ms[k], new(big.Rat).Abs(x))
+			}
 		}
 		ps = append(ps, p)
-		inputFactors = append(inputFactors, u.factor)
 		before = append(before, tot)
+		mass = append(mass, ms)
 		counts = append(counts, ns)
-		desc = append(desc, fmt.Sprintf("%s:%d samples", alias, ns))
+		desc = append(desc, fmt.Sprintf("(t/%s w/%s):%d samples", alias[0], alias[1], ns))
 	}
 	res := harness.Result{NonTrivial: true, Sig: fmt.Sprint(desc), Sample: fmt.Sprintf("ScaleProfiles over units %v (+ column in %q)", desc, otherUnit)}
 	c.Stat("scaleprofiles", 1)
+	if fa == fb {
+		c.Stat("scaleprofiles.same_family_twice", 1)
+	}
 	if err := measurement.ScaleProfiles(ps); err != nil {
 		res.Verdict, res.Detail = harness.Violated, fmt.Sprintf("ScaleProfiles failed on compatible profiles %v: %v", desc, err)
 		return res
 	}
-	unitName := ps[0].SampleType[1].Unit
-	// the common unit is the finest one among the inputs, so conversion is an exact multiplication
-	var finest *big.Rat
-	for _, d := range inputFactors {
-		if finest == nil || d.Cmp(finest) < 0 {
-			finest = d
-		}
-	}
-	var uf *big.Rat
-	for _, u := range fam.units {
-		for _, a := range u.aliases {
-			if a == unitName || u.canon == unitName {
-				uf = u.factor
-			}
-		}
-	}
 	for i, p := range ps {
-		if p.SampleType[1].Unit != unitName {
-			res.Verdict, res.Detail = harness.Violated, fmt.Sprintf("profiles not harmonised: %q vs %q", p.SampleType[1].Unit, unitName)
-			return res
-		}
-		if uf == nil {
-			res.Verdict, res.Detail = harness.Violated, fmt.Sprintf("harmonised unit %q is not in the family of the inputs", unitName)
-			return res
-		}
 		if len(p.Sample) != counts[i] {
 			res.Verdict, res.Detail = harness.Violated, fmt.Sprintf("ScaleProfiles changed the number of samples of profile %d (%s): %d -> %d", i, desc[i], counts[i], len(p.Sample))
 			return res
 		}
-		t0, t1 := new(big.Rat), new(big.Rat)
+		t0 := new(big.Rat)
 		for _, s := range p.Sample {
 			t0.Add(t0, new(big.Rat).SetInt64(s.Value[0]))
-			t1.Add(t1, mul(s.Value[1], uf))
 		}
 		if t0.Cmp(before[i][0]) != 0 {
 			res.Verdict, res.Detail = harness.Violated, fmt.Sprintf("column in unit %q changed its total: %v -> %v", otherUnit, before[i][0], t0)
 			return res
 		}
-		if uf.Cmp(finest) != 0 {
-			res.Verdict, res.Detail = harness.Violated, fmt.Sprintf("profiles %v were harmonised to %q, which is not the finest unit among them (precision of profile %d would be lost)", desc, unitName, i)
-			return res
+	}
+	for k := 1; k < 3; k++ {
+		fam := fams[k-1]
+		unitName := ps[0].SampleType[k].Unit
+		// the common unit is the finest one among the inputs, so conversion is an exact multiplication
+		var finest *big.Rat
+		for _, d := range inputFactors[k-1] {
+			if finest == nil || d.Cmp(finest) < 0 {
+				finest = d
+			}
 		}
-		d := new(big.Rat).Sub(t1, before[i][1])
-		lim := new(big.Rat) // exact: converting to the finest unit multiplies by an integer
-		if d.Abs(d).Cmp(lim) > 0 {
-			res.Verdict, res.Detail = harness.Violated, fmt.Sprintf("physical total of profile %d (%s) changed from %v to %v base units after harmonising to %q", i, desc[i], before[i][1], t1, unitName)
-			return res
+		var uf *big.Rat
+		for _, u := range fam.units {
+			for _, a := range u.aliases {
+				if a == unitName || u.canon == unitName {
+					uf = u.factor
+				}
+			}
+		}
+		for i, p := range ps {
+			if p.SampleType[k].Unit != unitName {
+				res.Verdict, res.Detail = harness.Violated, fmt.Sprintf("profiles not harmonised in column %d: %q vs %q (%v)", k, p.SampleType[k].Unit, unitName, desc)
+				return res
+			}
+			if uf == nil {
+				res.Verdict, res.Detail = harness.Violated, fmt.Sprintf("harmonised unit %q of column %d is not in the family of the inputs %v", unitName, k, desc)
+				return res
+			}
+			if uf.Cmp(finest) != 0 {
+				res.Verdict, res.Detail = harness.Violated, fmt.Sprintf("profiles %v were harmonised to %q in column %d, which is not the finest unit among them (precision of profile %d would be lost)", desc, unitName, k, i)
+				return res
+			}
+			t1 := new(big.Rat)
+			for _, s := range p.Sample {
+				t1.Add(t1, mul(s.Value[k], uf))
+			}
+			d := new(big.Rat).Sub(t1, before[i][k])
+			// converting to the finest unit multiplies by an integer: exact when the float64 ratio
+			// is exact (bytes, time); GCU factors are negative powers of ten, so the result is
+			// judged within 1e-12 relative error like every other float64 result of this check
+			lim := new(big.Rat)
+			if fam.def == "GCU" {
+				lim.Mul(mass[i][k], big.NewRat(1, 1000000000000))
+			}
+			if d.Abs(d).Cmp(lim) > 0 {
+				res.Verdict, res.Detail = harness.Violated, fmt.Sprintf("physical total of column %d of profile %d %s changed from %v to %v base units after harmonising to %q (all: %v)", k, i, desc[i], before[i][k], t1, unitName, desc)
+				return res
+			}
 		}
 	}
 	return res
